@@ -5,6 +5,7 @@ package main
 
 import (
 	"encoding/base64"
+	"path"
 	"reflect"
 	"fmt"
 	"go/types"
@@ -629,6 +630,164 @@ func (e *Engine) registerIntrinsics() {
 			}
 		}
 		panic(inconclusive("mapstructure.Decode: unsupported shapes %v -> %v", inp.T, outp.T))
+	}
+
+	// ---------------- encoding/json (opaque, injective) ----------------
+	// json.Marshal(v) returns a handle (bytes "json#<n>") of a deep snapshot of v;
+	// json.Unmarshal restores a deep copy of the snapshot into the pointee. This is the
+	// "serialise every field" abstraction: the wire format itself is not modelled.
+	jsonReg := func(c *PathCtx) *[]Value {
+		if r, ok := c.side["jsonreg"]; ok {
+			return r.(*[]Value)
+		}
+		r := &[]Value{}
+		c.side["jsonreg"] = r
+		return r
+	}
+	bytesOf := func(sv string) []Value {
+		out := make([]Value, len(sv))
+		for i := 0; i < len(sv); i++ {
+			out[i] = mkBV(8, uint64(sv[i]))
+		}
+		return out
+	}
+	jsonMarshal := func(c *PathCtx, fr *frame, args []Value) Value {
+		reg := jsonReg(c)
+		*reg = append(*reg, deepCopy(args[0], map[*Value]*Value{}))
+		return Tuple{bytesOf(fmt.Sprintf("json#%d", len(*reg))), Iface{}}
+	}
+	in["encoding/json.Marshal"] = jsonMarshal
+	in["github.com/goccy/go-json.Marshal"] = jsonMarshal
+	jsonUnmarshal := func(c *PathCtx, fr *frame, args []Value) Value {
+		data := args[0].([]Value)
+		bs := make([]byte, len(data))
+		for i, e := range data {
+			et := e.(*Term)
+			if !et.Const {
+				panic(inconclusive("json.Unmarshal of symbolic bytes"))
+			}
+			bs[i] = byte(et.U)
+		}
+		var n int
+		if _, err := fmt.Sscanf(string(bs), "json#%d", &n); err != nil || n < 1 || n > len(*jsonReg(c)) {
+			return c.newError(mkStr("invalid json"), nil)
+		}
+		src := (*jsonReg(c))[n-1].(Iface)
+		dst := args[1].(Iface)
+		dp, ok := dst.V.(*Value)
+		if !ok || dp == nil {
+			return c.newError(mkStr("json: Unmarshal(non-pointer)"), nil)
+		}
+		cp := deepCopy(src, map[*Value]*Value{}).(Iface)
+		// stored *T or T into *T
+		if sp, ok := cp.V.(*Value); ok && types.Identical(src.T, dst.T) {
+			if sp != nil {
+				*dp = *sp
+			}
+			return Iface{}
+		}
+		if pt, ok := dst.T.Underlying().(*types.Pointer); ok && types.Identical(pt.Elem(), src.T) {
+			*dp = cp.V
+			return Iface{}
+		}
+		// a JSON object decoded into a different struct type: encoding/json fills the
+		// fields whose names (and types) match and ignores the rest
+		if spt, ok := src.T.Underlying().(*types.Pointer); ok {
+			if dpt, ok := dst.T.Underlying().(*types.Pointer); ok {
+				sst, ok1 := spt.Elem().Underlying().(*types.Struct)
+				dst2, ok2 := dpt.Elem().Underlying().(*types.Struct)
+				if sp, ok3 := cp.V.(*Value); ok1 && ok2 && ok3 && sp != nil {
+					sv := (*sp).(Struct)
+					dv := (*dp).(Struct)
+					for i := 0; i < dst2.NumFields(); i++ {
+						for j := 0; j < sst.NumFields(); j++ {
+							if dst2.Field(i).Exported() && dst2.Field(i).Name() == sst.Field(j).Name() && types.Identical(dst2.Field(i).Type(), sst.Field(j).Type()) {
+								dv[i] = sv[j]
+							}
+						}
+					}
+					return Iface{}
+				}
+			}
+		}
+		panic(inconclusive("json.Unmarshal: stored %v into %v", src.T, dst.T))
+	}
+	in["encoding/json.Unmarshal"] = jsonUnmarshal
+	in["github.com/goccy/go-json.Unmarshal"] = jsonUnmarshal
+
+	// util.ToString / util.ToBytes are unsafe casts; semantically plain conversions
+	in["github.com/zilliztech/milvus-cdc/core/util.ToString"] = func(c *PathCtx, fr *frame, args []Value) Value {
+		sl := args[0].([]Value)
+		bs := make([]byte, len(sl))
+		for i, e := range sl {
+			et := e.(*Term)
+			if !et.Const {
+				panic(inconclusive("util.ToString of symbolic bytes"))
+			}
+			bs[i] = byte(et.U)
+		}
+		return mkStr(string(bs))
+	}
+	in["github.com/zilliztech/milvus-cdc/core/util.ToBytes"] = func(c *PathCtx, fr *frame, args []Value) Value {
+		st := args[0].(*Term)
+		if !st.Const {
+			panic(inconclusive("util.ToBytes of symbolic string"))
+		}
+		return bytesOf(st.S)
+	}
+
+	// path.Join: exact for concrete arguments; for symbolic components the claim is
+	// restricted (asserted as a path assumption, counted in the evidence) to components
+	// that path.Clean leaves untouched: no '.', no "//", no trailing '/'.
+	in["path.Join"] = func(c *PathCtx, fr *frame, args []Value) Value {
+		parts := args[0].([]Value)
+		allConst := true
+		for _, p := range parts {
+			if !p.(*Term).Const {
+				allConst = false
+			}
+		}
+		if allConst {
+			ss := make([]string, len(parts))
+			for i, p := range parts {
+				ss[i] = p.(*Term).S
+			}
+			return mkStr(path.Join(ss...))
+		}
+		var r *Term
+		for _, p := range parts {
+			t := p.(*Term)
+			if t.Const {
+				if t.S == "" {
+					continue
+				}
+				if path.Clean(t.S) != t.S || strings.HasSuffix(t.S, "/") {
+					panic(inconclusive("path.Join: concrete component %q needs cleaning next to symbolic ones", t.S))
+				}
+			} else {
+				ok := tAnd(tNot(tStrContains(t, mkStr("."))), tAnd(tNot(tStrContains(t, mkStr("//"))), tNot(tStrSuffixOf(mkStr("/"), t))))
+				c.assertTerm(ok)
+				c.res.Reached["assume:path.Join-component-is-clean"]++
+				if c.branch(tEq(t, mkStr("")), "path.Join-empty") {
+					continue
+				}
+			}
+			if r == nil {
+				r = t
+			} else {
+				r = tConcat(tConcat(r, mkStr("/")), t)
+			}
+		}
+		if r == nil {
+			return mkStr("")
+		}
+		return r
+	}
+
+	// context constructors: cancellation/deadlines are not modelled (no timers)
+	noopCancel := &NativeFunc{Name: "cancel", Fn: func(c *PathCtx, fr *frame, args []Value) Value { return nil }}
+	for _, n := range []string{"context.WithCancel", "context.WithTimeout", "context.WithDeadline"} {
+		in[n] = func(c *PathCtx, fr *frame, args []Value) Value { return Tuple{args[0], noopCancel} }
 	}
 
 	// ---------------- misc ----------------
